@@ -22,7 +22,7 @@ def _within(inner, outer):
 
 MIX = VOpq(None, "mix")
 # ghost flags that must survive joins (a may-have-happened on some path): merged by max
-STICKY_GHOST = ("buf-write-failed",)
+STICKY_GHOST = ("buf-write-failed", "c07-unresolved", "c07-foreign-push")
 
 
 class Joiner:
